@@ -209,7 +209,63 @@ class C19(Property):
                'namespace C19.Generated\n\n'
                'def lineEndings : List (List Nat) := [%s]\n\n'
                'end C19.Generated\n' % body)
-        return {'C19_LineEndings.lean': src}
+        out = {'C19_LineEndings.lean': src}
+        try:
+            lset, rset = self.probe_strip_sets()
+        except (Exception, CaseTimeout) as e:
+            # the code no longer strips a line in a way the probe understands: empty tables, so that the
+            # table lemma (stripSets_denote) and everything resting on it stops checking
+            print('note: strip-set probe failed: %r' % (e,))
+            lset, rset = [], []
+        self._strip = (lset, rset)
+        out['C19_StripSets.lean'] = (
+            '/- GENERATED by harness/bv/props/c19.py (regen) by running boltons.jsonutils.JSONLIterator on one-record\n'
+            '   probe files (one per byte value) with json.loads replaced by a recorder - do not edit.\n'
+            '   lstripSet : the bytes JSONLIterator.next removes from the front of a line before json.loads sees it\n'
+            '   rstripSet : the bytes it removes from the end of a line -/\n'
+            'namespace C19.Generated\n\n'
+            'def lstripSet : List Nat := [%s]\n\n'
+            'def rstripSet : List Nat := [%s]\n\n'
+            'end C19.Generated\n' % (', '.join(map(str, lset)), ', '.join(map(str, rset))))
+        return out
+
+    @staticmethod
+    def probe_strip_sets():
+        """which bytes does JSONLIterator.next take off the front / the end of a line before it decodes it?
+        Read off the behaviour of the current code, not off its source text (any spelling of the stripping
+        is accepted): one probe file per byte value b, `b Q LF` and `Q b LF`, json.loads replaced by a
+        recorder for the duration.  A byte counts as stripped when json.loads is handed exactly b'Q'."""
+        import json as _json
+        from boltons import jsonutils
+        seen = []
+
+        def recorder(s, *a, **kw):
+            seen.append(s)
+            return 0
+        saved = _json.loads
+        saved_local = jsonutils.__dict__.get('loads')
+        lset, rset = [], []
+        try:
+            _json.loads = recorder
+            if saved_local is saved:
+                jsonutils.loads = recorder
+            with time_limit(20):
+                for b in range(256):
+                    for which, probe in (('l', bytes([b]) + b'Q\n'), ('r', b'Q' + bytes([b]) + b'\n')):
+                        del seen[:]
+                        for _ in jsonutils.JSONLIterator(io.BytesIO(probe), ignore_errors=True):
+                            pass
+                        got = [bytes(x) if isinstance(x, (bytes, bytearray)) else x for x in seen]
+                        kept = (bytes([b]) + b'Q') if which == 'l' else (b'Q' + bytes([b]))
+                        if got == [b'Q']:
+                            (lset if which == 'l' else rset).append(b)
+                        elif got != [kept]:
+                            raise ValueError('JSONLIterator handed json.loads %r for the probe %r' % (got, probe))
+        finally:
+            _json.loads = saved
+            if saved_local is saved:
+                jsonutils.loads = saved
+        return lset, rset
 
     def extra_checks(self):
         """the table the driver was compiled with is the one the translator just read from the source"""
@@ -218,9 +274,10 @@ class C19(Property):
         if alts is None or not d.available():
             return []
         got = d.query(['tbl'])[0]
-        want = 'E' + show_lines(alts, show_cps)
+        lset, rset = getattr(self, '_strip', ([], []))
+        want = 'E' + show_lines(alts, show_cps) + ' L' + show_cps(lset) + ' R' + show_cps(rset)
         if got != want:
-            raise InfraError('driver was built with line-ending table %s, translator read %s' % (got, want))
+            raise InfraError('driver was built with tables %s, translator read %s' % (got, want))
         return []
 
     # ------------------------------------------------------------------ generation
@@ -270,6 +327,13 @@ class C19(Property):
             yield self.random_jl(rng)
         for j in range(1500 if th else 300):
             yield self.big_jl(rng, real=(j % 10 == 0))
+        # ---- rf: preseek=False from every position; in: indent
+        yield from self.small_rf(5 if th else 4, skip=3)
+        for _ in range(6000 if th else 600):
+            yield self.random_rf(rng)
+        yield from self.small_indent(4 if th else 3, skip=2)
+        for _ in range(8000 if th else 800):
+            yield self.random_indent(rng)
         # ---- second helping of the size-dependent families, random this time
         yield from self.long_jl(rng, random_only=(3000 if th else 250))
         for _ in range(600 if th else 60):
@@ -302,6 +366,8 @@ class C19(Property):
         yield from self.long_jl(rng)
         yield from self.ratio_rl()
         yield from self.file_kinds()
+        yield from self.small_rf(3)
+        yield from self.small_indent(2)
         for _ in range(200 if self.thorough else 30):
             yield self.big_rl(rng)
 
@@ -499,6 +565,45 @@ class C19(Property):
                     yield {'k': 'rl', 'c': hx(c), 'bs': 2, 'mode': mode, 'pre': pre}
                     yield {'k': 'jl', 'c': hx(c), 'mode': mode, 'ign': 1, 'pre': pre}
 
+    BIN_MODES = ('b', 'bf', 'bu', 'br')
+
+    def small_rf(self, nunits, skip=0):
+        """reverse_iter_lines(..., preseek=False) with the file position at every offset 0..len (binary files)"""
+        i = 0
+        for n in range(skip + 1 if skip else 0, nunits + 1):
+            for units in itertools.product(RL_UNITS, repeat=n):
+                c = b''.join(units)
+                for pos in range(0, len(c) + 1):
+                    for bs in sorted({1, 2, 3, len(c) + 1}):
+                        i += 1
+                        yield {'k': 'rf', 'c': hx(c), 'bs': bs, 'pos': pos,
+                               'mode': self.BIN_MODES[i % 4] if i % 53 == 0 else 'b'}
+
+    def random_rf(self, rng):
+        base = self.random_rl(rng)
+        c = unhx(base['c'])
+        return {'k': 'rf', 'c': base['c'], 'bs': base['bs'], 'pos': rng.randint(0, len(c)),
+                'mode': rng.choice(self.BIN_MODES) if rng.random() < 0.1 else 'b'}
+
+    IN_MARGINS = [[], [32], [62, 62], [9], [0xe9, 32]]
+    IN_NEWLINES = [[10], [13, 10], [], [0x2028], [124]]
+
+    def small_indent(self, maxlen, skip=0):
+        """indent(text, margin, newline, key) over all short texts x margins x newlines x key (bool / always)"""
+        for n in range(skip + 1 if skip else 0, maxlen + 1):
+            for t in itertools.product(SL_SMALL if n > 2 else SL_ALPHABET, repeat=n):
+                for mi, m in enumerate(self.IN_MARGINS[:3]):
+                    for ni, nl in enumerate(self.IN_NEWLINES[:3]):
+                        if n > 2 and (mi + ni) % 2:
+                            continue
+                        for key in ('bool', 'all'):
+                            yield {'k': 'in', 't': list(t), 'm': m, 'nl': nl, 'key': key}
+
+    def random_indent(self, rng):
+        t = self.random_sl(rng)['t']
+        return {'k': 'in', 't': t, 'm': rng.choice(self.IN_MARGINS), 'nl': rng.choice(self.IN_NEWLINES),
+                'key': rng.choice(['bool', 'bool', 'all'])}
+
     def deep_cases(self, budget_s):
         rng = self.rng
         # every character the current pattern mentions joins the alphabet
@@ -514,7 +619,11 @@ class C19(Property):
                 yield {'k': 'jl', 'c': hx(c), 'mode': 'b', 'ign': ign}
         while True:
             r = rng.random()
-            if r < 0.3:
+            if r < 0.05:
+                yield self.random_rf(rng)
+            elif r < 0.1:
+                yield self.random_indent(rng)
+            elif r < 0.3:
                 yield self.random_sl(rng)
             elif r < 0.65:
                 yield self.random_rl(rng)
@@ -697,6 +806,10 @@ class C19(Property):
             return 'sl ' + show_cps(case['t'])
         if k == 'rl':
             return 'rl %s %d' % (hx(content(case)), case['bs'])
+        if k == 'rf':
+            return 'rf %s %d %d' % (hx(content(case)), case['pos'], case['bs'])
+        if k == 'in':
+            return 'in %s %s %s %s' % (show_cps(case['t']), show_cps(case['m']), show_cps(case['nl']), case['key'])
         if k == 'jl':
             c = content(case)
             if not set(c) <= JL_ALLOWED:
@@ -765,14 +878,16 @@ class C19(Property):
                 return ['?', repr(x)]
         return ['?', repr(x)[:50]]
 
-    def run_rl(self, content, bs, mode, pre=0):
+    def run_rl(self, content, bs, mode, pre=0, pos=None):
         from boltons.jsonutils import reverse_iter_lines
         f, close = self.open_file(content, mode)
         try:
             if pre:
                 f.read(pre)     # the caller had a look at the head of the file first
             out = []
-            for x in reverse_iter_lines(f, bs):
+            if pos is not None:
+                f.seek(pos)     # relative reverse line generation: the caller positions the file itself
+            for x in (reverse_iter_lines(f, bs) if pos is None else reverse_iter_lines(f, bs, preseek=False)):
                 out.append(self.enc_line(x))
                 if len(out) > len(content) + 5:
                     return {'exc': 'TooManyLines', 'lines': out}
@@ -815,6 +930,20 @@ class C19(Property):
                     whole = self.run_rl(c, len(c) + 1, case['mode'])
                     obs['whole'] = whole.get('lines')
                     return obs
+                if k == 'rf':
+                    c = content(case)
+                    obs = self.run_rl(c, case['bs'], case['mode'], pos=case['pos'])
+                    whole = self.run_rl(c, len(c) + 1, case['mode'], pos=case['pos'])
+                    obs['whole'] = whole.get('lines')
+                    return obs
+                if k == 'in':
+                    from boltons.strutils import indent
+                    text, margin, nl = (''.join(chr(c) for c in case[x]) for x in ('t', 'm', 'nl'))
+                    if case['key'] == 'bool':
+                        r = indent(text, margin, nl)
+                    else:
+                        r = indent(text, margin, nl, key=lambda line: True)
+                    return {'text': cps(r) if isinstance(r, str) else ['?']}
                 if k == 'jl':
                     c = content(case)
                     fo, fe = self.drain_jsonl(c, case['mode'], case['ign'], False)
@@ -852,7 +981,9 @@ class C19(Property):
         if k == 'sl':
             text = ''.join(chr(c) for c in case['t'])
             return show_lines(obs['lines'], show_cps) + '|' + show_lines([cps(l) for l in text.splitlines()], show_cps)
-        if k == 'rl':
+        if k == 'in':
+            return 'X' + obs['exc'] if 'exc' in obs else show_cps(obs['text'])
+        if k in ('rl', 'rf'):
             want = 'b' if case['mode'][0] == 'b' else 's'
             s = show_lines(obs['lines'], lambda l: l[1] if l[0] == want else '!' + l[0] + l[1])
             return s + ('!' + obs['exc'] if 'exc' in obs else '')
@@ -871,8 +1002,10 @@ class C19(Property):
             return Failure('raises', '%s case raised %s' % (k, obs['exc']))
         if k == 'sl':
             return self.oracle_sl(case, obs)
-        if k == 'rl':
+        if k in ('rl', 'rf'):
             return self.oracle_rl(case, obs)
+        if k == 'in':
+            return self.oracle_in(case, obs)
         return self.oracle_jl(case, obs)
 
     def oracle_sl(self, case, obs):
@@ -899,8 +1032,29 @@ class C19(Property):
         pieces = c.split(b'\n')
         return [p[:-1] if (i < len(pieces) - 1 and p.endswith(b'\r')) else p for i, p in enumerate(pieces)]
 
+    def oracle_in(self, case, obs):
+        """indent() = newline.join of the lines of the text (str.splitlines, plus a final '' after a closing
+        line break), each given the margin when key(line)"""
+        t = case['t']
+        if any(c in FS_CPS for c in t):
+            self.stats['sl_outside_statement'] = self.stats.get('sl_outside_statement', 0) + 1
+            return None
+        text, margin, nl = (''.join(chr(c) for c in case[x]) for x in ('t', 'm', 'nl'))
+        lines = text.splitlines()
+        if t and t[-1] in BREAK_CPS:
+            lines.append('')
+        want = nl.join((margin + l) if (l or case['key'] == 'all') else l for l in lines)
+        self._nt = any(c in BREAK_CPS for c in t)
+        if obs['text'] != cps(want):
+            got = ''.join(map(chr, obs['text'])) if '?' not in obs['text'] else obs['text']
+            return Failure('indent', 'indent(%r, %r, %r%s) = %r, expected %r' % (
+                text, margin, nl, '' if case['key'] == 'bool' else ', key=always', got, want))
+        return None
+
     def oracle_rl(self, case, obs):
         c = content(case)
+        if case['k'] == 'rf':
+            return self.oracle_rf(case, obs, c)
         text = case['mode'][0] == 't'
         got = obs['lines']
         kind = 's' if text else 'b'
@@ -920,6 +1074,29 @@ class C19(Property):
         if got_b != want:
             return Failure('rl_lines', 'reverse_iter_lines(%s, blocksize=%d, %s) = %s, expected %s'
                            % (self.brief(c), case['bs'], case['mode'], self.brief_lines(got_b), self.brief_lines(want)))
+        return None
+
+    def oracle_rf(self, case, obs, c):
+        """preseek=False with the file position at pos: the lines of the first pos bytes, last to first
+        (documented as 'relative reverse line generation'; JSONLIterator(rel_seek=..., reverse=True) rests on it)"""
+        got = obs['lines']
+        for l in got:
+            if l[0] != 'b':
+                return Failure('rl_type', 'reverse_iter_lines yielded %r in binary mode' % (l,))
+        got_b = [unhx(l[1]) for l in got]
+        head = c[:case['pos']]
+        what = 'reverse_iter_lines(%s at position %d, blocksize=%d, preseek=False, %s)' % (
+            self.brief(c), case['pos'], case['bs'], case['mode'])
+        if obs.get('whole') != got:
+            return Failure('rl_blocksize', '%s = %s differs from the one-block result %s' % (
+                what, self.brief_lines(got_b), self.brief_lines([unhx(l[1]) for l in obs.get('whole') or []])))
+        if has_lone_cr(head):
+            self.stats['rl_lone_cr'] = self.stats.get('rl_lone_cr', 0) + 1
+            return None
+        want = self.expected_lines(head)[::-1]
+        self._nt = len(want) >= 2 and case['bs'] < len(head)
+        if got_b != want:
+            return Failure('rf_lines', '%s = %s, expected %s' % (what, self.brief_lines(got_b), self.brief_lines(want)))
         return None
 
     def oracle_jl(self, case, obs):
@@ -1051,6 +1228,14 @@ class C19(Property):
                 if c not in BREAK_CPS and c != 97 and c != 32:
                     yield dict(case, t=t[:i] + [97] + t[i + 1:])
             return
+        if k == 'in':
+            t = case['t']
+            for i in range(len(t)):
+                yield dict(case, t=t[:i] + t[i + 1:])
+            for key in ('m', 'nl'):
+                for i in range(len(case[key])):
+                    yield dict(case, **{key: case[key][:i] + case[key][i + 1:]})
+            return
         text = case['mode'][0] == 't'
         if len(case['mode']) > 1:
             yield dict(case, mode=case['mode'][0])
@@ -1088,9 +1273,15 @@ class C19(Property):
             seen.add(d)
             if k == 'rl':
                 yield dict(case, c=hx(d), bs=min(case['bs'], len(d) + 1))
+            elif k == 'rf':
+                yield dict(case, c=hx(d), bs=min(case['bs'], len(d) + 1), pos=min(case['pos'], len(d)))
             else:
                 yield dict(case, c=hx(d))
-        if k == 'rl':
+        if k == 'rf':
+            for pos in (case['pos'] - 1, case['pos'] // 2):
+                if 0 <= pos < case['pos']:
+                    yield dict(case, pos=pos)
+        if k in ('rl', 'rf'):
             for bs in (1, 2, case['bs'] - 1, case['bs'] // 2):
                 if 1 <= bs < case['bs']:
                     yield dict(case, bs=bs)
